@@ -21,7 +21,8 @@
 (* set of announcements written to peers by the LAST step (the Outbox),    *)
 (* `delivered` is a ghost recording who delivered what.                    *)
 (*                                                                         *)
-(* Time is in seconds; H = MAX_TIME_DELTA = 3600; a gossip tick is 7 s.    *)
+(* Time is in milliseconds relative to the node's start, as in the recorded *)
+(* executions; H = MAX_TIME_DELTA = 1 h; a gossip tick advances 7 s.        *)
 (*                                                                         *)
 (* Deviations of the code from the intended design that are known findings *)
 (* are explicit, switchable disjuncts (CONSTANT Dev):                      *)
@@ -48,8 +49,9 @@ CONSTANTS Peer,        \* nodes that can connect to us
 
 Self == 0
 Node == Peer \cup Other
-H == 3600
-TickLen == 7
+H == 3600000       \* MAX_TIME_DELTA (ms)
+TickLen == 7000   \* a step of the clock that passes GOSSIP_INTERVAL (6 s)
+Epoch == -1000000000  \* "since the beginning of time" in a subscription (times are relative to the node's start)
 Kinds == {"node", "inv", "refs"}
 
 VARIABLES clock, known, store, relayedBy, conn, sub, private, ownTs, ownInv, restarts,
@@ -88,9 +90,10 @@ NextTs == IF clock > ownTs THEN clock ELSE ownTs + 1
 
 -----------------------------------------------------------------------------
 Init ==
-    /\ clock = 1
+    /\ clock = 0
     /\ known = {}
-    /\ store = <<>>
+    \* the node publishes its inventory right after initialize() (first wake-up)
+    /\ store = (<<Self, "inv", 0>> :> [ts |-> 2, relay |-> "dont"])
     /\ relayedBy = <<>>
     /\ conn = {}
     /\ sub = [p \in Peer |-> {}]
@@ -195,7 +198,7 @@ Subscribe(p, F, since) ==
 
 \* tick + wake: relay stored inventories whose relay flag is set
 GossipTick ==
-    /\ clock < 1 + MaxTicks * TickLen
+    /\ clock < MaxTicks * TickLen
     /\ clock' = clock + TickLen
     /\ LET pending == {k \in DOMAIN store : store[k].relay = "relay" /\ k[1] # Self} IN
        /\ out' = UNION {Sends(RelayTargets(k, [node |-> k[1], kind |-> k[2], repo |-> k[3], ts |-> store[k].ts],
@@ -203,7 +206,7 @@ GossipTick ==
                               [node |-> k[1], kind |-> k[2], repo |-> k[3], ts |-> store[k].ts], "tick") : k \in pending}
        /\ store' = [k \in DOMAIN store |-> IF k \in pending THEN [store[k] EXCEPT !.relay = "relayed"] ELSE store[k]]
     /\ disc' = {}
-    /\ Log(<<"tick", TickLen * 1000>>)
+    /\ Log(<<"tick", TickLen>>)
     /\ UNCHANGED <<known, relayedBy, conn, sub, private, ownTs, ownInv, restarts, routing, delivered>>
 
 \* Command::AnnounceRefs for a repository we have
@@ -246,7 +249,7 @@ Restart ==
 Next ==
     \/ \E p \in Peer : Connect(p) \/ Disconnect(p)
     \/ \E p \in Peer, a \in Anns : Receive(p, a)
-    \/ \E p \in Peer, F \in {{}, Repo}, since \in {0} : Subscribe(p, F, since)
+    \/ \E p \in Peer, F \in {{}, Repo}, since \in {Epoch} : Subscribe(p, F, since)
     \/ GossipTick
     \/ \E r \in Repo : AnnounceRefs(r) \/ VisChange(r)
     \/ Restart
